@@ -31,6 +31,9 @@ EXTRA_PROGS = [
     # change what the other checks of the family report)
     "import os, subprocess\nsubprocess.call(['ls', '-l'])\nos.system('ls -l')\nos.execl('/bin/ls', 'ls')\nos.popen('ls')\nos.spawnl(0, 'ls')\n"
     "subprocess.Popen(['ls'], shell=False)\nos.execvp('ls', ['ls'])\nmyspawn(['ls'])\nopen('/tmp/zz_f')\n",
+    # findings of other checks inside the starred arguments B703 unpacks
+    "from django.utils.safestring import mark_safe\nmark_safe('{} {}'.format(*[eval(zz_a), '/tmp/zz_x']))\nmark_safe('%s %s' % (*[exec(zz_b), '0.0.0.0'],))\n"
+    "zz_v = '{}'.format(*[zz_f('/var/tmp/zz_y')])\nmark_safe(zz_v)\n",
     "import os, subprocess\nos.system('chmod 777 *')\nos.popen('tar cf zz.tar *')\nsubprocess.Popen('rsync -a * zz:', shell=True)\nos.system('ls')\n",
 ]
 # user configurations under which the same law must hold (the configuration is the same in both runs)
@@ -222,6 +225,14 @@ def run(R, replay=None):
         b = climain.run_main(["-q", "-f", "json"] + (["-t", ",".join(inc)] if inc else []) + (["-s", ",".join(exc)] if exc else []) + [prog])
         R.case(("profile", tuple(inc), tuple(exc)), nontrivial=True, sample={"include": inc, "exclude": exc, "profile": res(a), "cli": res(b)})
         R.count("selection:profile")
+        # the same file also carries top-level tests/skips lists: with -p the named profile is the selection
+        other = [x for x in ("B110", "B101", "B602") if x not in inc][:1]
+        yaml.safe_dump({"profiles": {"mine": prof}, "tests": other, "skips": (inc[:1] if len(inc) > 1 else [])}, open(cf, "w"))
+        a2 = climain.run_main(["-q", "-f", "json", "-c", cf, "-p", "mine", prog])
+        if a2["exception"] or res(a2) != res(b):
+            R.violations.append({"what": "profile include=%s exclude=%s selected with -p from a file that also has top-level tests=%s skips=%s gives other findings than -t/-s" % (
+                inc, exc, other, inc[:1] if len(inc) > 1 else []), "input": {"include": inc, "exclude": exc, "config": open(cf).read()},
+                "observed": {"profile": res(a2), "cli": res(b), "exc": a2["exception"]}, "signature": None})
         if a["exception"] or b["exception"] or res(a) != res(b):
             R.violations.append({"what": "the selection include=%s exclude=%s gives other findings as a config profile than through -t/-s" % (inc, exc),
                                  "input": {"include": inc, "exclude": exc}, "observed": {"profile": res(a), "cli": res(b), "exc": a["exception"] or b["exception"]},
